@@ -53,6 +53,8 @@ func scripted(t *testing.T, tr *common.Trace, idx int, name string, script isccS
 		w.AddAction("d2", "p1", false)
 		w.AddAction("d3", "p1", true)
 		w.AddAction("d4", "p2", false)
+		w.AddAction("d5", "p1", false)
+		w.AddAction("d6", "p1", false)
 		f(sc)
 		sc.drain()
 	})
@@ -127,6 +129,29 @@ func TestScenarios(t *testing.T) {
 		sc.complete(w1, 0, 0)
 		w.StartExecute("c1", find(w, "d1"), "", []string{"a", "t1"}, 0)
 		sc.settle()
+	})
+
+	// Per-level stickiness windows: the window of level k is measured from
+	// the moment the worker started serving its current level-k invocation.
+	scripted(t, tr, next(), "stickiness-levels", &fixedScript{idx: 0}, func(sc *scenario) {
+		w := sc.w
+		w.Predeclare("", "p1", []int{100, 4}, 0, 50, []uint32{1})
+		w1 := sc.worker("w1", "h1", "", "p1", 1)
+		sc.idle(w1) // blocks waiting for work
+		w.StartExecute("c1", find(w, "d1"), "", []string{"a", "t1"}, 0)
+		sc.settle() // handed to w1 at t=0
+		w.StartExecute("c2", find(w, "d2"), "", []string{"a", "t2"}, 0)
+		sc.settle() // queued in a/t2
+		w.Advance(10)
+		sc.complete(w1, 0, 0) // t=10: takes d2; level 1 switches from t1 to t2
+		w.StartExecute("c3", find(w, "d5"), "", []string{"a", "t1"}, 0)
+		sc.settle()
+		w.StartExecute("c4", find(w, "d6"), "", []string{"a", "t2"}, 0)
+		sc.settle()
+		w.Advance(2)
+		sc.complete(w1, 0, 0) // t=12: a/t1 is least recently served, but a/t2 is within its window
+		sc.complete(w1, 0, 0)
+		sc.complete(w1, 0, 0)
 	})
 
 	// Retry on the largest size class with attached duplicate.
